@@ -71,6 +71,7 @@ func Predict(cs *ClientSpec) (preds []Pred, complete bool, closes bool, resets b
 				srvKey = []byte{}
 			}
 			wl := len(ps.Wire(cs.Key))
+			off += len(cs.ProxyLine())
 			pr := Pred{Op: i, H: h, Spec: ps, Offset: off, WireLen: wl, SameKey: bytes.Equal(key, srvKey)}
 			off += wl
 			if ps.FlipBit != nil {
